@@ -144,6 +144,7 @@ pub fn gen_chain(rng: &mut Rng, max_exchanges: usize, body_max: usize) -> Chain 
             head,
             body,
             close_data,
+            extra_interim: 0,
         };
         let (bytes, truth) = match ex.render() {
             Some(v) => v,
